@@ -2,32 +2,93 @@ package main
 
 import (
 	"bytes"
+	"compress/gzip"
 	"encoding/binary"
 	"encoding/hex"
 	"fmt"
+	"os"
+	"os/exec"
 	"runtime"
+	"strconv"
 	"strings"
 	"time"
 
 	"github.com/paulmach/orb"
 	"github.com/paulmach/orb/encoding/ewkb"
+	"github.com/paulmach/orb/encoding/mvt/vectortile"
 	"github.com/paulmach/orb/encoding/wkb"
+	"github.com/paulmach/orb/encoding/wkt"
+	"go.mongodb.org/mongo-driver/bson"
 )
 
-func init() { register(&Prop{ID: "C05", Run: runC05, Gen: genC05}) }
+// C05 — decoders never panic, never loop forever, never over-allocate on hostile input.
+//
+// ops
+//   wkb <hex> [dest]     => um ; st ; sc ; psc ; wsc ; dsc ; dpsc ; dwsc ; A <um> <st> <scan> <stable>
+//                           ewkb.Unmarshal, the stream Decoder, ewkb.Scanner / ScannerPrefixSRID / wkb.Scanner
+//                           into a nil destination, the same three scanners into the typed destination
+//                           `dest` (one of c01Dests; default any), TotalAlloc of Unmarshal, of Decode and
+//                           of ewkb.Scanner(dest).Scan, re-encoding stability of a returned value
+//   wkbnest <kind> <k>   => ok | err <class> | crash <what> | timeout
+//                           k one-member multi (kind mls, mpoly) / collection (kind coll) headers around an
+//                           empty member, decoded in a CHILD process (a Go stack overflow is fatal, not a panic)
+//   wkt / mvt / gj       the hostile streams of C04 / C03 / C02, run by their runners under a watchdog
+//
+// Quick tier: the budget is apportioned per stream and per sub-family, in this order: witnesses of past
+// fixes and of recorded findings (c05Witnesses, shard 0), the fixed families, a sample of the exhaustive
+// tiny-input families, structure-aware mutations.
 
-// guardT runs f under recover and a watchdog (a decoder that loops forever is reported as "timeout";
-// the goroutine is abandoned).
-func guardT(f func() string) string {
-	ch := make(chan string, 1)
-	go func() { ch <- guard(f) }()
-	select {
-	case s := <-ch:
-		return s
-	case <-time.After(5 * time.Second):
-		return "timeout"
+func init() {
+	// child mode of the `wkbnest` op (see c05NestChild); must run before flag parsing
+	if a := os.Getenv("ORBVERIF_C05_NEST"); a != "" {
+		c05NestChild(a)
 	}
+	register(&Prop{ID: "C05", Run: runC05, Gen: genC05})
 }
+
+// --- watchdog -------------------------------------------------------------------------------------
+
+// guardTL runs f under recover and a watchdog.  The limit is counted in 10 ms ticks of a ticker, not
+// read off the wall clock: a ticker drops the ticks nobody waits for, so a stall of the whole process
+// (an overloaded machine, a stopped container) costs one tick, whereas a decoder that loops outlasts
+// all of them.  A decoder that does not come back within `first` is then given a second, `again` times
+// longer chance, and only then reported as "timeout"; the goroutines are abandoned.
+func guardTL(first time.Duration, again int, f func() string) string {
+	run := func(d time.Duration) (string, bool) {
+		ch := make(chan string, 1)
+		go func() { ch <- guard(f) }()
+		tk := time.NewTicker(10 * time.Millisecond)
+		defer tk.Stop()
+		for n := int(d / (10 * time.Millisecond)); n > 0; n-- {
+			select {
+			case s := <-ch:
+				return s, true
+			case <-tk.C:
+			}
+		}
+		select {
+		case s := <-ch:
+			return s, true
+		default:
+			return "", false
+		}
+	}
+	if s, ok := run(first); ok {
+		return s
+	}
+	if s, ok := run(time.Duration(again) * first); ok {
+		return s
+	}
+	return "timeout"
+}
+
+// guardT: the WKB decoders answer in microseconds (the largest recorded witness in 0.2 s).
+func guardT(f func() string) string { return guardTL(5*time.Second, 12, f) }
+
+// the delegated runners decode one input through up to nine entry points and measure some of them
+// three times; the largest recorded inputs need seconds (and C02's runner has a 120 s watchdog of its
+// own inside): 150 s, then 450 s more
+const c05DelegatedLimit = 150 * time.Second
 
 func allocDelta(f func()) uint64 {
 	var a, b runtime.MemStats
@@ -37,120 +98,494 @@ func allocDelta(f func()) uint64 {
 	return b.TotalAlloc - a.TotalAlloc
 }
 
+// c05Measure: TotalAlloc is process-wide (the harness has other goroutines), so a measurement that
+// looks large is repeated and the minimum taken.
+func c05Measure(n int, f func()) uint64 {
+	a := allocDelta(f)
+	for k := 0; k < 2 && a > uint64(64*n+4096); k++ {
+		if a2 := allocDelta(f); a2 < a {
+			a = a2
+		}
+	}
+	return a
+}
+
+// c05WKTTypedAlloc: the largest TotalAlloc delta of one call among the seven typed WKT parsers.
+func c05WKTTypedAlloc(s string) uint64 {
+	fs := []func(){
+		func() { wkt.UnmarshalPoint(s) }, func() { wkt.UnmarshalMultiPoint(s) }, func() { wkt.UnmarshalLineString(s) },
+		func() { wkt.UnmarshalMultiLineString(s) }, func() { wkt.UnmarshalPolygon(s) }, func() { wkt.UnmarshalMultiPolygon(s) },
+		func() { wkt.UnmarshalCollection(s) },
+	}
+	var worst uint64
+	for _, f := range fs {
+		f := f
+		g := func() { guard(func() string { f(); return "" }) }
+		a := allocDelta(g)
+		for k := 0; k < 2 && a > wktAllocBudget(len(s)); k++ {
+			if a2 := allocDelta(g); a2 < a {
+				a = a2
+			}
+		}
+		if a > worst {
+			worst = a
+		}
+	}
+	return worst
+}
+
+// --- runner ---------------------------------------------------------------------------------------
+
 func runC05(op string, in []string) string {
 	switch op {
 	case "wkb":
-		var data []byte
-		if in[0] != "empty" {
-			var err error
-			data, err = hex.DecodeString(in[0])
-			if err != nil {
-				return "badhex"
-			}
-		}
-		cp := func() []byte { return append([]byte{}, data...) }
-		var um string
-		var umG orb.Geometry
-		var umS int
-		var umErr error
-		// TotalAlloc is process-wide (the harness has other goroutines): take the minimum of three runs
-		alloc := ^uint64(0)
-		for rep := 0; rep < 3; rep++ {
-			a := allocDelta(func() {
-				um = guardT(func() string {
-					umG, umS, umErr = ewkb.Unmarshal(cp())
-					return wkbOutcome(umG, umS, umErr)
-				})
-			})
-			if a < alloc {
-				alloc = a
-			}
-		}
-		st := guardT(func() string { return wkbOutcome(ewkb.NewDecoder(bytes.NewReader(cp())).Decode()) })
-		scan := func(s interface{ Scan(interface{}) error }, get func() (orb.Geometry, int, bool)) string {
-			return guardT(func() string {
-				if err := s.Scan(cp()); err != nil {
-					return "err " + wkbErrClass(err)
-				}
-				g, srid, valid := get()
-				if !valid {
-					return "invalid"
-				}
-				return fmt.Sprintf("ok %d %s", srid, gs(g))
-			})
-		}
-		s1 := ewkb.Scanner(nil)
-		sc := scan(s1, func() (orb.Geometry, int, bool) { return s1.Geometry, s1.SRID, s1.Valid })
-		s2 := ewkb.ScannerPrefixSRID(nil)
-		psc := scan(s2, func() (orb.Geometry, int, bool) { return s2.Geometry, s2.SRID, s2.Valid })
-		s3 := wkb.Scanner(nil)
-		wsc := scan(s3, func() (orb.Geometry, int, bool) { return s3.Geometry, 0, s3.Valid })
-		// when a value is returned, re-encoding it and decoding again is stable
-		stable := true
-		if umErr == nil && umG != nil && um != "panic" && um != "timeout" {
-			stable = guardT(func() string {
-				b, err := ewkb.Marshal(umG, umS)
-				if err != nil {
-					return "0"
-				}
-				g2, s2, err := ewkb.Unmarshal(b)
-				if err != nil || s2 != umS || gs(g2) != gs(umG) {
-					return "0"
-				}
-				return "1"
-			}) == "1"
-		}
-		return strings.Join([]string{um, st, sc, psc, wsc, fmt.Sprintf("A %d %s", alloc, b2s(stable))}, " ; ")
-	}
-	switch op {
+		return runC05WKB(in)
+	case "wkbnest":
+		return runC05Nest(in)
 	case "wkt":
-		return runWKTHostile(in)
+		return guardTL(c05DelegatedLimit, 3, func() string {
+			out := runWKTHostile(in)
+			if out == "timeout" || out == "panic" || len(in) == 0 {
+				return out
+			}
+			// C04's runner measures wkt.Unmarshal; the seven typed parsers are measured here
+			return out + " ; talloc " + strconv.FormatUint(c05WKTTypedAlloc(wktUnhex(in[0])), 10)
+		})
 	case "mvt":
-		return runMVTHostile(in)
+		return guardTL(c05DelegatedLimit, 3, func() string { return runMVTHostile(in) })
 	case "gj":
-		return runGeoJSONHostile(in)
+		return guardTL(c05DelegatedLimit, 3, func() string { return runGeoJSONHostile(in) })
 	}
 	return "badop"
 }
+
+func runC05WKB(in []string) string {
+	if len(in) < 1 {
+		return "badinput"
+	}
+	var data []byte
+	if in[0] != "empty" {
+		var err error
+		data, err = hex.DecodeString(in[0])
+		if err != nil {
+			return "badhex"
+		}
+	}
+	dest := "any"
+	if len(in) > 1 {
+		dest = in[1]
+		ok := false
+		for _, d := range c01Dests {
+			ok = ok || d == dest
+		}
+		if !ok {
+			return "baddest"
+		}
+	}
+	cp := func() []byte { return append([]byte{}, data...) }
+	var umG orb.Geometry
+	var umS int
+	var umErr error
+	um := guardT(func() string {
+		umG, umS, umErr = ewkb.Unmarshal(cp())
+		return wkbOutcome(umG, umS, umErr)
+	})
+	st := guardT(func() string { return wkbOutcome(ewkb.NewDecoder(bytes.NewReader(cp())).Decode()) })
+	// the three scanner wrappers; `which` 0 ewkb.Scanner, 1 ewkb.ScannerPrefixSRID, 2 wkb.Scanner
+	scan := func(which int, d string) string {
+		return guardT(func() string {
+			dst, read := newDest(d)
+			var err error
+			var g orb.Geometry
+			var srid int
+			var valid bool
+			switch which {
+			case 0, 1:
+				var s *ewkb.GeometryScanner
+				if which == 0 {
+					s = ewkb.Scanner(dst)
+				} else {
+					s = ewkb.ScannerPrefixSRID(dst)
+				}
+				err = s.Scan(cp())
+				g, srid, valid = s.Geometry, s.SRID, s.Valid
+			default:
+				s := wkb.Scanner(dst)
+				err = s.Scan(cp())
+				g, valid = s.Geometry, s.Valid
+			}
+			if err != nil {
+				return "err " + wkbErrClass(err)
+			}
+			if !valid {
+				return "invalid"
+			}
+			if read != nil && gs(read()) != gs(g) {
+				return "dest-differs " + gs(read())
+			}
+			return fmt.Sprintf("ok %d %s", srid, gs(g))
+		})
+	}
+	outs := []string{um, st}
+	hung := um == "timeout" || st == "timeout"
+	for _, sc := range []struct {
+		which int
+		d     string
+	}{{0, "any"}, {1, "any"}, {2, "any"}, {0, dest}, {1, dest}, {2, dest}} {
+		o := "timeout" // after one decoder has hung the verdict is settled: do not wait for the others
+		if !hung {
+			o = scan(sc.which, sc.d)
+			hung = o == "timeout"
+		}
+		outs = append(outs, o)
+	}
+	bad := false
+	for _, o := range outs {
+		bad = bad || o == "panic" || o == "timeout"
+	}
+	// allocation of the three kinds of entry point (only when every call came back: the calls are
+	// deterministic, so the measured repetitions need no watchdog of their own)
+	var aum, ast, asc uint64
+	if !bad {
+		aum = c05Measure(len(data), func() { guard(func() string { ewkb.Unmarshal(cp()); return "" }) })
+		ast = c05Measure(len(data), func() {
+			guard(func() string { ewkb.NewDecoder(bytes.NewReader(cp())).Decode(); return "" })
+		})
+		asc = c05Measure(len(data), func() {
+			guard(func() string { dst, _ := newDest(dest); ewkb.Scanner(dst).Scan(cp()); return "" })
+		})
+	}
+	// when a value is returned, re-encoding it and decoding again is stable
+	stable := true
+	if umErr == nil && umG != nil && um != "panic" && um != "timeout" {
+		stable = guardT(func() string {
+			b, err := ewkb.Marshal(umG, umS)
+			if err != nil {
+				return "0"
+			}
+			g2, s2, err := ewkb.Unmarshal(b)
+			if err != nil || s2 != umS || gs(g2) != gs(umG) {
+				return "0"
+			}
+			return "1"
+		}) == "1"
+	}
+	outs = append(outs, fmt.Sprintf("A %d %d %d %s", aum, ast, asc, b2s(stable)))
+	return strings.Join(outs, " ; ")
+}
+
+// --- deep nesting: run in a child process ----------------------------------------------------------
+
+func c05NestInput(kind string, k int) []byte {
+	typ, leaf := byte(5), byte(2)
+	switch kind {
+	case "mpoly":
+		typ, leaf = 6, 3
+	case "coll":
+		typ = 7
+	}
+	b := make([]byte, 0, 9*k+9)
+	for i := 0; i < k; i++ {
+		b = append(b, 1, typ, 0, 0, 0, 1, 0, 0, 0)
+	}
+	return append(b, 1, leaf, 0, 0, 0, 0, 0, 0, 0)
+}
+
+// c05NestChild: `kind:k` — decode and exit; a stack overflow kills this process, not the harness.
+func c05NestChild(arg string) {
+	f := strings.Split(arg, ":")
+	k, _ := strconv.Atoi(f[1])
+	data := c05NestInput(f[0], k)
+	var err error
+	if f[0] == "coll" {
+		_, _, err = ewkb.NewDecoder(bytes.NewReader(data)).Decode()
+	} else {
+		_, _, err = ewkb.Unmarshal(data)
+	}
+	if err != nil {
+		fmt.Println("err " + wkbErrClass(err))
+	} else {
+		fmt.Println("ok")
+	}
+	os.Exit(0)
+}
+
+func runC05Nest(in []string) string {
+	if len(in) != 2 || (in[0] != "mls" && in[0] != "mpoly" && in[0] != "coll") {
+		return "badinput"
+	}
+	k, err := strconv.Atoi(in[1])
+	if err != nil || k < 0 || k > 20000000 {
+		return "badinput"
+	}
+	cmd := exec.Command(os.Args[0])
+	cmd.Env = append(os.Environ(), "ORBVERIF_C05_NEST="+in[0]+":"+in[1])
+	var so, se bytes.Buffer
+	cmd.Stdout, cmd.Stderr = &so, &se
+	if err := cmd.Start(); err != nil {
+		return "badstart"
+	}
+	done := make(chan error, 1)
+	go func() { done <- cmd.Wait() }()
+	select {
+	case err = <-done:
+	case <-time.After(10 * time.Minute):
+		cmd.Process.Kill()
+		return "timeout"
+	}
+	if err != nil {
+		if strings.Contains(se.String(), "stack overflow") {
+			return "crash stack-overflow"
+		}
+		return "crash other"
+	}
+	out := strings.TrimSpace(so.String())
+	if out == "" {
+		return "crash silent"
+	}
+	return out
+}
+
+// --- witnesses of past fixes and of recorded findings ----------------------------------------------
 
 func hx(b []byte) string { return hexOrEmpty(b) }
 
 func u32b(o binary.ByteOrder, v uint32) []byte { b := make([]byte, 4); o.PutUint32(b, v); return b }
 
-func genC05(c *Ctx) {
-	r := c.Rng
-	// the other three decoder families: hostile streams built by the C04 / C03 / C02 plug-ins
-	// (exhaustive short families + structure-aware mutations), judged by their handlers
-	sub := *c
-	quota := c.Budget / 4
+func c05Gzip(b []byte) []byte {
+	var buf bytes.Buffer
+	zw := gzip.NewWriter(&buf)
+	zw.Write(b)
+	zw.Close()
+	return buf.Bytes()
+}
+
+// c05NestedMulti: the input family `Orb.WKB.nestedMultiInput` (a multi claiming k+1 members, k nested
+// one-member multi headers, an empty member): quadratic in the byte-slice decoder.
+func c05NestedMulti(typ, leaf byte, k int) []byte {
+	b := append([]byte{1, typ, 0, 0, 0}, u32b(binary.LittleEndian, uint32(k+1))...)
+	for i := 0; i < k; i++ {
+		b = append(b, 1, typ, 0, 0, 0, 1, 0, 0, 0)
+	}
+	return append(b, 1, leaf, 0, 0, 0, 0, 0, 0, 0)
+}
+
+type c05Case struct{ op, in string }
+
+// c05Witnesses: one input per defect of the decoders that /repo has fixed (reverting the fix makes
+// the quick tier fail on it) and per recorded finding; emitted first, on shard 0.
+func c05Witnesses(thorough bool) []c05Case {
+	var w []c05Case
+	add := func(op, in string) { w = append(w, c05Case{op, in}) }
+	// MVT: 57d2ed6 (point feature starting with ClosePath and a huge count), 8f96bde (feature without
+	// geometry), e1c9f1a (fewer than two bytes)
+	pt, ls := vectortile.Tile_POINT, vectortile.Tile_LINESTRING
+	name, ver := "a", uint32(2)
+	tile := func(fs ...*vectortile.Tile_Feature) string {
+		t := &vectortile.Tile{Layers: []*vectortile.Tile_Layer{{Name: &name, Version: &ver, Features: fs}}}
+		b, _ := t.Marshal()
+		return hx(b)
+	}
+	add("mvt", tile(&vectortile.Tile_Feature{Type: &pt, Geometry: []uint32{7 | 1<<24<<3, 0}}))
+	add("mvt", tile(&vectortile.Tile_Feature{Type: &pt, Geometry: []uint32{2 | 1<<20<<3, 0, 0}}))
+	add("mvt", tile(&vectortile.Tile_Feature{Type: &pt}))
+	add("mvt", tile(&vectortile.Tile_Feature{Type: &ls}))
+	add("mvt", tile(&vectortile.Tile_Feature{Type: &pt, Geometry: []uint32{9, 2, 2}}, &vectortile.Tile_Feature{Type: &pt}))
+	add("mvt", "empty")
+	add("mvt", "1f")
+	add("mvt", "1f8b")
+	// recorded finding: a gzip bomb (8 MiB of zeros in 8 kB) is inflated whole
+	add("mvt", hx(c05Gzip(make([]byte, 8<<20))))
+	// GeoJSON: 87467ba (padded null feature), 6b9e2e7 (null member of a collection), the smallest documents
+	for _, s := range []string{" null", "null\n", "\tnull ", "null", "{}", "[]", `{"type":"Point"}`,
+		`{"type":"GeometryCollection","geometries":[null]}`, `{"type":"GeometryCollection","geometries":null}`,
+		`{"type":"Feature","geometry":null}`, `{"type":"FeatureCollection","features":[null]}`,
+		`{"type":"Feature","geometry":{"type":"GeometryCollection","geometries":[null]},"properties":null}`} {
+		add("gj", "json "+hx([]byte(s)))
+	}
+	for _, d := range []bson.D{
+		{{Key: "type", Value: "GeometryCollection"}, {Key: "geometries", Value: bson.A{nil}}},
+		{{Key: "type", Value: "Feature"}, {Key: "geometry", Value: bson.D{{Key: "type", Value: "GeometryCollection"}, {Key: "geometries", Value: bson.A{nil}}}}},
+		{{Key: "type", Value: "Point"}},
+		{},
+	} {
+		if b, err := bson.Marshal(d); err == nil {
+			add("gj", "bson "+hx(b))
+		}
+	}
+	// WKT: 5a01c04 (collections split on letters: exponent coordinates, quadratic on long digit runs)
+	for _, s := range []string{"GEOMETRYCOLLECTION(POINT(1e5 2))", "GEOMETRYCOLLECTION(POINT(1 2),LINESTRING(1e-3 2,3 4))",
+		"GEOMETRYCOLLECTION" + strings.Repeat("1", 8000), "GEOMETRYCOLLECTION(" + strings.Repeat("1", 40000) + ")",
+		"GEOMETRYCOLLECTION(ZZ(1 2))", "GEOMETRYCOLLECTION(POINT(1 2)zPOINT(3 4))", "", "POINT"} {
+		add("wkt", wktHostileInput(s))
+	}
+	// WKB: 7525976 (num*16 wrapped in uint32), 0de7204 (bad byte-order mark in the stream decoder),
+	// every cap at once in the stream decoder, the nested-multi family (recorded finding)
+	for _, b := range [][]byte{
+		{1, 2, 0, 0, 0, 0, 0, 0, 0x10, 1, 2, 3},
+		{0, 0, 0, 0, 2, 0x10, 0, 0, 0, 1, 2, 3},
+		{1, 3, 0, 0, 0, 1, 0, 0, 0, 0, 0, 0, 0x10, 1, 2, 3},
+		{2, 1, 0, 0, 0, 0, 0, 0, 0, 0, 0, 0, 0, 0, 0, 0, 0, 0, 0, 0, 0},
+		{1, 7, 0, 0, 0, 1, 0, 0, 0, 2, 1, 0, 0, 0},
+		{1, 6, 0, 0, 0, 255, 255, 255, 255, 1, 3, 0, 0, 0, 255, 255, 255, 255, 255, 255, 255, 255},
+		{1, 7, 0, 0, 0, 255, 255, 255, 255, 1, 7, 0, 0, 0, 255, 255, 255, 255, 1, 4, 0, 0, 0, 255, 255, 255, 255},
+	} {
+		add("wkb", hx(b))
+	}
+	for _, k := range []int{3, 40, 400} {
+		add("wkb", hx(c05NestedMulti(5, 2, k))+" any")
+		add("wkb", hx(c05NestedMulti(6, 3, k))+" MPG")
+	}
+	add("wkb", hx(c05NestedMulti(5, 2, 400))+" LS")
+	add("wkb", hx(c05NestedMulti(4, 1, 400))+" MP")
+	if thorough {
+		add("wkb", hx(c05NestedMulti(5, 2, 1000))+" MLS")
+	}
+	// nesting depth: fine at 100000 levels, a fatal stack overflow at 4 million (36 MB of input)
+	add("wkbnest", "mls 100000")
+	add("wkbnest", "coll 100000")
+	add("wkbnest", "mls 4000000")
+	add("wkbnest", "coll 4000000")
+	if thorough {
+		add("wkbnest", "mpoly 100000")
+		add("wkbnest", "mpoly 4000000")
+	}
+	return w
+}
+
+// --- generator ------------------------------------------------------------------------------------
+
+// c05Sub: a bare context for the generators of the other plug-ins (they use Rng, Tier, Budget, Shard,
+// Shards, Mine, Exhausted and the emit callback only).
+func c05Sub(c *Ctx, budget int) *Ctx {
+	return &Ctx{Rng: c.Rng, Tier: c.Tier, Budget: budget, Shard: c.Shard, Shards: c.Shards, Stale: c.Stale, deadline: c.deadline}
+}
+
+// c05Sampled runs gen twice: once to count what it would emit on this shard, then to run about `want`
+// of those cases, evenly spread with a seed-dependent phase (all of them when want <= 0 or few enough).
+func c05Sampled(c *Ctx, want int, op string, gen func(emit func(string)), keep func(string) bool) {
 	n := 0
-	genWKTHostile(c, func(in string) {
-		if n < quota || c.Tier == "thorough" {
+	gen(func(s string) {
+		if keep == nil || keep(s) {
+			n++
+		}
+	})
+	stride := 1
+	if want > 0 && n > want {
+		stride = (n + want - 1) / want
+	}
+	phase := c.Rng.Intn(stride)
+	i := 0
+	gen(func(s string) {
+		if keep != nil && !keep(s) {
+			return
+		}
+		if i%stride == phase {
+			c.Case(op, s)
+		}
+		i++
+	})
+}
+
+func genC05(c *Ctx) {
+	thorough := c.Tier == "thorough"
+	q := c.Budget / 4 // quick: cases per delegated stream and shard
+	if q < 30 {
+		q = 30
+	}
+	if c.Shard == 0 {
+		for _, w := range c05Witnesses(thorough) {
+			c.Case(w.op, w.in)
+		}
+	}
+	genC05WKT(c, q, thorough)
+	genC05MVT(c, q, thorough)
+	genC05GJ(c, q, thorough)
+	genC05WKB(c, thorough)
+}
+
+// WKT: exhaustive short sentences and the fixed list (all), then mutations.
+func genC05WKT(c *Ctx, q int, thorough bool) {
+	if thorough {
+		genWKTHostile(c, func(in string) { c.Case("wkt", in) })
+		return
+	}
+	seen := map[string]bool{}
+	genWKTHostile(c05Sub(c, 0), func(in string) {
+		if !seen[in] {
+			seen[in] = true
 			c.Case("wkt", in)
 		}
-		n++
 	})
-	n = 0
-	genMVTHostile(c, func(in string) {
-		if n < quota || c.Tier == "thorough" {
+	genWKTHostile(c05Sub(c, q/2), func(in string) {
+		if !seen[in] {
+			c.Case("wkt", in)
+		}
+	})
+}
+
+// MVT: the recorded witnesses and every 0- and 1-byte tile, a third of the quota of 2-byte tiles,
+// half of it structure-aware mutations.
+func genC05MVT(c *Ctx, q int, thorough bool) {
+	if thorough {
+		genMVTHostile(c, func(in string) { c.Case("mvt", in) })
+		return
+	}
+	tiny2 := func(in string) bool { return len(in) == 4 }
+	seen := map[string]bool{}
+	fixed := c05Sub(c, 0)
+	genMVTHostile(fixed, func(in string) {
+		if !tiny2(in) && !seen[in] {
+			seen[in] = true
 			c.Case("mvt", in)
 		}
-		n++
 	})
-	n = 0
-	genGeoJSONHostile(c, func(in string) {
-		if n < quota || c.Tier == "thorough" {
-			c.Case("gj", in)
+	c05Sampled(c, q/3, "mvt", func(emit func(string)) { genMVTHostile(c05Sub(c, 0), emit) }, tiny2)
+	n := 0
+	genMVTHostile(c05Sub(c, q/2), func(in string) {
+		if in != "empty" && len(in) > 4 && !seen[in] && n < q {
+			n++
+			c.Case("mvt", in)
 		}
-		n++
 	})
-	_ = sub
-	// exhaustive header family: order byte x type word x boundary counts x truncation point
+}
+
+// GeoJSON / BSON: the corpus of past disagreements (all), a third of the quota each from the tiny-document
+// family, the typed-substitution family and structure-aware mutations.
+func genC05GJ(c *Ctx, q int, thorough bool) {
+	if thorough {
+		genGeoJSONHostile(c, func(in string) { c.Case("gj", in) })
+		return
+	}
+	genGeoJSONHostileCorpus(c05Sub(c, 0), func(in string) { c.Case("gj", in) })
+	c05Sampled(c, q/3, "gj", func(emit func(string)) { genGeoJSONHostileFixed(c05Sub(c, 0), emit) }, nil)
+	c05Sampled(c, q/3, "gj", func(emit func(string)) { genGeoJSONHostileTyped(c05Sub(c, 0), false, emit) }, nil)
+	genGeoJSONHostileN(c05Sub(c, q/3), q/3, func(in string) { c.Case("gj", in) })
+}
+
+func genC05WKB(c *Ctx, thorough bool) {
+	r := c.Rng
+	// exhaustive header family: order byte x type word x boundary counts x nested member x truncation point
 	counts := []uint32{0, 1, 2, 1 << 28, 1<<28 + 1, 1 << 31, 1<<32 - 1}
 	types := []uint32{0, 1, 2, 3, 4, 5, 6, 7, 8, 0x11, 1003, 0x20000001, 0x20000002, 0x20000003, 0x20000004, 0x20000005, 0x20000006, 0x20000007, 0x20000000, 0x80000001}
 	tail := make([]byte, 48)
 	for i := range tail {
 		tail[i] = byte(i*37 + 1)
+	}
+	// the member types a container of type t is given: the well-typed one (Point in MultiPoint, LineString
+	// in MultiLineString, Polygon in MultiPolygon; each of 1..7 in a collection), the container's own type
+	// (a nested one-member multi is accepted by the Scan* functions) and for the plain types the type itself
+	members := func(t uint32) []uint32 {
+		switch t & 0xf {
+		case 4, 5, 6:
+			return []uint32{t&0xf - 3, t & 0xf}
+		case 7:
+			return []uint32{1, 2, 3, 4, 5, 6, 7}
+		}
+		if t&0xf >= 1 && t&0xf <= 3 {
+			return []uint32{t & 0xf}
+		}
+		return []uint32{1}
 	}
 	idx := 0
 	for _, ob := range []byte{0, 1, 2} {
@@ -159,33 +594,36 @@ func genC05(c *Ctx) {
 			o = binary.BigEndian
 		}
 		for _, t := range types {
-			for _, n := range counts {
-				var full []byte
-				full = append(full, ob)
-				full = append(full, u32b(o, t)...)
-				if t&0x20000000 != 0 {
-					full = append(full, u32b(o, 4326)...)
-				}
-				full = append(full, u32b(o, n)...)
-				// a nested member header + data so that multi types get something to chew on
-				full = append(full, ob)
-				full = append(full, u32b(o, (t&0xf+6)%7+1)...)
-				full = append(full, u32b(o, n)...)
-				full = append(full, tail...)
-				for cut := 0; cut <= len(full); cut++ {
-					idx++
-					if !c.Mine(idx) {
-						continue
+			for _, mt := range members(t) {
+				for _, n := range counts {
+					var full []byte
+					full = append(full, ob)
+					full = append(full, u32b(o, t)...)
+					if t&0x20000000 != 0 {
+						full = append(full, u32b(o, 4326)...)
 					}
-					if c.Tier != "thorough" && cut > 30 && cut%7 != 0 {
-						continue
+					full = append(full, u32b(o, n)...)
+					// a nested member header + data so that multi types get something to chew on
+					full = append(full, ob)
+					full = append(full, u32b(o, mt)...)
+					full = append(full, u32b(o, n)...)
+					full = append(full, tail...)
+					for cut := 0; cut <= len(full); cut++ {
+						idx++
+						if !c.Mine(idx) {
+							continue
+						}
+						// quick: every cut up to the end of a two-point member, then every seventh
+						if !thorough && cut > 52 && cut%7 != 0 {
+							continue
+						}
+						c.Case("wkb", hx(full[:cut])+" "+c01Dests[(idx/c.Shards)%len(c01Dests)])
 					}
-					c.Case("wkb", hx(full[:cut]))
 				}
 			}
 		}
 	}
-	// every 0..2 byte string (quick: sampled third byte)
+	// every 0..2 byte string (quick: sampled second byte)
 	if c.Shard == 0 {
 		c.Case("wkb", "empty")
 		for a := 0; a < 256; a++ {
@@ -208,7 +646,7 @@ func genC05(c *Ctx) {
 		}
 		m := append([]byte(nil), b...)
 		for n := 1 + r.Intn(3); n > 0; n-- {
-			switch r.Intn(7) {
+			switch r.Intn(8) {
 			case 0: // truncate
 				m = m[:r.Intn(len(m)+1)]
 			case 1: // bit flip
@@ -240,12 +678,21 @@ func genC05(c *Ctx) {
 				m = h
 			case 6: // 4-byte prefix
 				m = append(u32b(binary.LittleEndian, r.Uint32()), m...)
+			case 7: // a chain of nested one-member multi headers in front (quadratic when it has siblings)
+				t := []uint32{4, 5, 6, 7}[r.Intn(4)]
+				var hdr []byte
+				for d := 1 + r.Intn(6); d > 0; d-- {
+					hdr = append(hdr, m0(m))
+					hdr = append(hdr, u32b(o, t)...)
+					hdr = append(hdr, u32b(o, uint32(1+r.Intn(3)/2))...)
+				}
+				m = append(hdr, m...)
 			}
 		}
 		if len(m) > 4096 {
 			m = m[:4096]
 		}
-		c.Case("wkb", hx(m))
+		c.Case("wkb", hx(m)+" "+c01Dests[r.Intn(len(c01Dests))])
 	}
 }
 
